@@ -187,10 +187,41 @@ func (e *Enc) runBody(fn *ssa.Function, con *FuncContract, ur *UnitResult) {
 		q := &Query{Name: e.ctx + "#cover:requires", Kind: "cover", NAssume: len(e.assumes), Goal: tb.True(), Cover: true}
 		e.queries = append(e.queries, q)
 	}
+	if con != nil && con.yields != "" {
+		for i, p := range fn.Params {
+			if p.Name() == con.yields && i < len(args) {
+				e.yieldParam, e.yieldName = args[i].t(), p.Name()
+			}
+		}
+		if e.yieldParam == nil {
+			e.contractError(nil, "yields", fmt.Errorf("no parameter %q", con.yields))
+		} else {
+			e.setYield(&st, tb.False(), tb.False())
+		}
+	}
 	res, out, fr := e.encodeFunc(fn, args, e.freeVarVals, st, nil, con, nil)
 	e.topFr = fr
 	if con == nil {
 		return
+	}
+	if con.iter != nil {
+		e.modelled("ASSUMED iteration summary (`iterates`: number, order and arguments of the callback calls) of " + shortFuncName(fn) + "; only its stop protocol (`yields`) is verified against the body")
+	}
+	if e.yieldParam != nil {
+		// one obligation that is always generated: on no path was the callback called, or handed to a callee, after it
+		// had returned false
+		goal := tb.Not(e.yieldBad(&out))
+		text := "the callback " + e.yieldName + " is never called again, nor handed to another iterator, once it has returned false"
+		for mc, done := range e.yieldLits {
+			if !done {
+				// a literal that captures the callback and is not verified as the body of an iteration: whoever gets it
+				// may call the callback at any time
+				goal = tb.False()
+				text += "; the literal " + mc.Fn.Name() + " captures it and is not verified as an iteration body (no callback clauses)"
+			}
+		}
+		q := e.oblige("protocol", e.yieldName+"-not-called-after-stop", &out, goal, token.NoPos, e.inputVals()...)
+		q.Text = text
 	}
 	if len(fr.rets) > 0 {
 		q := &Query{Name: e.ctx + "#cover:return", Kind: "cover", NAssume: len(e.assumes), Goal: out.reach, Cover: true}
@@ -262,7 +293,7 @@ func (e *Enc) finish(ur *UnitResult, opt runOpts) {
 			continue
 		}
 		switch q.Kind {
-		case "ensures", "loop-entry", "loop-preserved", "callback-entry", "callback-preserved", "callpre", "cover", "contract-target", "frame", "closure", "lemma", "assert", "typeinv", "law":
+		case "ensures", "loop-entry", "loop-preserved", "callback-entry", "callback-preserved", "callpre", "cover", "contract-target", "frame", "closure", "lemma", "assert", "typeinv", "law", "protocol":
 			ur.Props[q.Name] = con.props
 		default:
 			ur.Props[q.Name] = con.safetyProps
